@@ -305,9 +305,14 @@ def _subst(x, a, b):
 def _fail_condition(path, src):
     """canonical atoms (op, l, r) true on this path, built from bool atoms"""
     out = []
+    flip = {"Lt": "Gt", "Gt": "Lt", "Le": "Ge", "Ge": "Le", "Eq": "Eq", "Ne": "Ne"}
     for a in path.atoms():
         for op, l, r in guards.bool_atoms(a[1], a[2]):
-            out.append((op, _canon(l, src), _canon(r, src)))
+            l, r = _canon(l, src), _canon(r, src)
+            # one orientation: the cursor / the count on the left
+            if r in ("CUR", "COUNT") and l not in ("CUR", "COUNT"):
+                op, l, r = flip[op], r, l
+            out.append((op, l, r))
     return out
 
 
@@ -317,6 +322,12 @@ ACCEPT_GUARD = {
     "skip": [("Gt", "COUNT", ("satsub", "END", "CUR")), ("Lt", ("satsub", "END", "CUR"), "COUNT")],
 }
 NEG = {"Lt": "Ge", "Le": "Gt", "Gt": "Le", "Ge": "Lt", "Eq": "Ne", "Ne": "Eq"}
+# after orientation (cursor / count on the left) the accepted overflow-safe guards are:
+ACCEPT_GUARD = {
+    "read_u8": [("Ge", "CUR", "END")],
+    "read_bytes": [("Gt", "COUNT", ("satsub", "END", "CUR"))],
+    "skip": [("Gt", "COUNT", ("satsub", "END", "CUR"))],
+}
 
 
 def sources_agree(an, rep):
